@@ -117,7 +117,7 @@ func runC04(p *core.Prog, r *core.Report) {
 		}
 		var startOK, endOK []core.Edge
 		endStops := false
-		core.Instrs(fn, func(in ssa.Instruction) {
+		core.InstrsDeep(fn, func(in ssa.Instruction) {
 			ifi, ok := in.(*ssa.If)
 			if !ok {
 				return
@@ -261,7 +261,7 @@ func runC04(p *core.Prog, r *core.Report) {
 		ec := execCalls[0]
 		// edge where the error of executeModules is nil
 		var nilEdges []core.Edge
-		core.Instrs(fn, func(in ssa.Instruction) {
+		core.InstrsDeep(fn, func(in ssa.Instruction) {
 			ifi, ok := in.(*ssa.If)
 			if !ok {
 				return
@@ -409,7 +409,28 @@ func runC04(p *core.Prog, r *core.Report) {
 			if p.IsTestFunc(w.Fn) {
 				continue
 			}
-			if k, ok := w.Value.(*ssa.Const); !ok || k.Value == nil || k.Value.ExactString() != "true" {
+			if k, ok := w.Value.(*ssa.Const); ok && k.Value != nil && k.Value.ExactString() == "true" {
+				continue
+			}
+			// any other value may be stored only where the gate was just found closed (`if !g.passed { g.passed = … }`)
+			var closedEdges []core.Edge
+			core.Instrs(w.Fn, func(in ssa.Instruction) {
+				ifi, ok := in.(*ssa.If)
+				if !ok {
+					return
+				}
+				c, neg := core.StripNot(ifi.Cond)
+				if f, _ := core.LoadedField(c); f != passed {
+					return
+				}
+				idx := 1 // the false edge of `if g.passed`
+				if neg {
+					idx = 0
+				}
+				closedEdges = append(closedEdges, core.Edge{From: ifi.Block(), Idx: idx})
+			})
+			q := core.PathQuery{Fn: w.Fn, CutEdge: func(e core.Edge) bool { return containsEdge(closedEdges, e) }, Inter: -1}
+			if _, reach := q.CanReach(nil, func(x ssa.Instruction) bool { return x == w.Instr }); reach || len(closedEdges) == 0 {
 				okMono = false
 			}
 		}
